@@ -48,7 +48,9 @@ where
     G::EdgeWeight: Clone + PartialOrd,
     G::NodeId: Eq + Hash,
 {
-    let graph_size = g.node_references().size_hint().0;
+    // the scratch arrays are indexed with `to_index`, so they must span `node_bound`
+    // (a size hint or the node count is too small when the graph has vacant indices)
+    let graph_size = g.node_bound();
     let mut auxiliary_const = ArticulationPointTracker::new(graph_size);
 
     for node in g.node_references() {
